@@ -680,6 +680,10 @@ func (g *Gen) didTx() Op {
 		if r.Chance(50) {
 			op.Did = a + 1
 		}
+		if r.Chance(25) {
+			// the same key DID written as a DID URL (fragment, query, path): another string, the same identifier once parsed
+			op.OwnerRaw = g.W.didOf1(op.Did) + []string{"#k1", "?versionId=1", "/p"}[r.Intn(3)]
+		}
 		return op
 	default:
 		return Op{K: "payaddr", Creator: creator, OwnerRaw: []string{"garbage", "did:web:example.com", ""}[r.Intn(3)]}
